@@ -1,4 +1,5 @@
 import Driver.Common
+import Driver.Views
 import Parsley.Model.Content
 import Parsley.Spec.Fig9
 /-
@@ -14,6 +15,16 @@ import Parsley.Spec.Fig9
   output :  ok <tok>*  (S | T<hex>)   |  err   |  panic <site>
   judge  :  decodes <enc>, checks it is well-formed and renders to exactly <hex stream>, and compares
             the implementation's output with `Fig9.expected` (never calls the model).
+
+  cut case :  cut <maxDepth> <hex stream> <enc>     <hex stream> is a strict PREFIX of the rendering of the
+            well-formed program <enc> (known operators only), the rest lying behind the window of a view case:
+            the extractor must answer `err`, or the tokens it returns must be a prefix of `Fig9.expected <enc>`.
+  view variant :  vw <steps> <prehex> <sufhex> <any case above>     the same case with <hex stream> as a window of
+            the larger allocation <prehex> ++ <hex stream> ++ <sufhex>, selected by a chain of RestrictView /
+            RestrictViewFrom steps (Driver/Views.lean).  The extractor's output carries no offsets, so the
+            unchanged code answers exactly what it answers on the window's bytes in a buffer of their own; model and
+            oracle see the window alone (justification: Parsley.C17.view_refines_copy).  Classes of rejected view
+            cases are prefixed `view-`.
 -/
 namespace Driver.C12
 open Parsley Parsley.Fig9 Driver
@@ -120,7 +131,7 @@ def decProg (enc : String) : Option Prog :=
   | [] => none
 
 /-! ### model / judge -/
-def model (line : String) : String :=
+def modelPlain (line : String) : String :=
   match words line with
   | _ :: d :: hex :: _ =>
     match d.toNat?, bytesOfHex hex with
@@ -128,8 +139,34 @@ def model (line : String) : String :=
     | _, _ => "bad-case"
   | _ => "bad-case"
 
-def judge (case impl : String) : String :=
+/-- the window of a case: its third word -/
+def winOf : List String → Option Bytes
+  | _ :: _ :: hex :: _ => bytesOfHex hex
+  | _ => none
+
+def model (line : String) : String := Views.model winOf modelPlain line
+
+def judgePlain (case impl : String) : String :=
   match words case with
+  | ["cut", _, hex, enc] =>
+    match bytesOfHex hex, decProg enc with
+    | some s, some p =>
+      if !p.ok then "bad ill-formed-case tree is outside the spec's domain"
+      else if !(s.length < p.render.length && s == p.render.take s.length) then "bad case-mismatch not a strict prefix of the rendering"
+      else
+        match expected p with
+        | none => "bad ill-formed-case the full program is not valid"
+        | some full =>
+          let i := impl.trimAscii.toString
+          if i == "err" then "ok"
+          else if i == "hang" then "bad nontermination cut stream"
+          else if i.startsWith "ok" then
+            let got := (words i).drop 1
+            let want := (words (showToks full)).drop 1
+            if got.length ≤ want.length && got == want.take got.length then "ok"
+            else s!"bad cut-unsound tokens that the whole stream does not yield; whole={showToks full}"
+          else "bad panic cut stream"
+    | _, _ => "bad undecodable-case -"
   | [_, _, _] =>
     -- raw bytes: no syntax tree, so no expected tokens - but the extractor must still END (value or error)
     let i := impl.trimAscii.toString
@@ -152,6 +189,8 @@ def judge (case impl : String) : String :=
         else s!"bad wrong-tokens expected={e}"
     | _, _, _ => "bad undecodable-case -"
   | _ => "bad undecodable-case -"
+
+def judge (case impl : String) : String := Views.judge winOf judgePlain case impl
 
 /-! ### generators -/
 abbrev G := StateM Rng
@@ -350,7 +389,105 @@ def tableArgs (op : Bytes) : List (Operand × Bytes) :=
     h (path only), n (path and clip), ID (image only) -/
 def probes : List Bytes := [b "cm", Fig9.Tstar, b "h", b "n", Fig9.ID]
 
-def gen (seed n : Nat) (_tier : String) (emit : String → IO Unit) : IO Unit := do
+/-! ### every case once more on a restricted view (Driver/Views.lean)
+
+  Each case line is followed by its view twin.  Axes, cycled by the running case counter `c` with pairwise coprime
+  periods: bytes in front of the window (16: 1, 7, 11, 1000, ... of them - a file header with a stream object and
+  content-stream text, or random bytes), chain of restrictions (7: View, From, view of a view in four ways, three
+  deep), bytes behind the window (5).  What lies behind the window CONTINUES the stream: behind a truncated stream
+  (`raw` truncations, `cut`) the rest of it; behind a structured case more operands and text-showing operators, the
+  closing of a string / array / text object - so that an extractor reading beyond the view's end returns more tokens,
+  completes a construct, or fails.  One random structured case in five gets a second twin whose window ENDS AFTER AN
+  EARLIER INSTRUCTION of the program (expected: what the spec says of that shorter program), the remaining
+  instructions lying behind it. -/
+
+def junkText : Bytes :=
+  b "%PDF-1.7\n4 0 obj<</Length 44>>stream\nBT /F1 12 Tf 72 712 Td (junk) Tj ET\nendstream endobj\nBT (before) Tj [(a) -5 <62>] TJ ET q 1 0 0 1 0 0 cm Q\n"
+
+def sufPool : List Bytes :=
+  [b " (more) Tj", b ") Tj ET", b " Tj\n", b "j", b " ET\nBT (x) Tj ET", b "> Tj", b "] TJ", b " 0 0 Td (z) '", b "*", b "\n(behind) Tj\n",
+   b "(s) Tj", b " BT (t) Tj ET"]
+
+def viewTwin (c : Nat) (line : String) (cont : Option Bytes) : Option String :=
+  match words line with
+  | _ :: _ :: hex :: _ =>
+    match bytesOfHex hex with
+    | none => none
+    | some buf =>
+      let pool := sufPool[(c / 5) % sufPool.length]?.getD []
+      let suf : Bytes := match c % 5 with
+        | 1 => []
+        | 3 => pool
+        | _ => cont.getD pool
+      some (Views.viewLine c line buf.length junkText suf)
+  | _ => none
+
+/-- the program cut after an earlier instruction, and what then lies behind the window -/
+def trimProg (c : Nat) (p : Prog) : Option (Prog × Bytes) :=
+  let n := p.insts.length
+  if n < 2 then none else
+  let j := 1 + c % (n - 1)
+  let p' : Prog := { p with insts := p.insts.take j }
+  let s := p.render
+  let s' := p'.render
+  if p'.ok && s'.length < s.length && s.take s'.length == s' then some (p', s.drop s'.length) else none
+
+def knownOps (p : Prog) : Bool := p.insts.all fun i => (catOf i.op).isSome
+
+/-- windows that end inside a stream: valid programs cut at every byte, the rest lying behind the window -/
+def cutWindows (emit : String → IO Unit) (seed nprogs : Nat) : IO Unit := do
+  let str (s : String) : Operand × Bytes := (.atom (.lit (b s)), b " ")
+  let fixed : Prog := { lead := b " ", insts := [
+    { args := [], op := Fig9.BT, after := b "\n" },
+    { args := [(.atom (.name (b "F1")), b " "), (.atom (.num (b "12")), b " ")], op := b "Tf", after := b " " },
+    { args := [str "he(l)lo"], op := Fig9.Tj, after := b " " },
+    { args := [num0, (.atom (.num (b "-14.5")), b " ")], op := Fig9.Td, after := b "\n" },
+    { args := tableArgs Fig9.TJ, op := Fig9.TJ, after := b " " },
+    { args := [], op := Fig9.Tstar, after := b " " },
+    { args := [str "q"], op := Fig9.quote, after := b " " },
+    { args := [num0, num0, str "dq"], op := Fig9.dquote, after := b "\r\n" },
+    { args := [], op := Fig9.ET, after := b "\n" }] }
+  let mut r := Rng.mk' (seed + 12)
+  let mut k := 0
+  let mut done := 0
+  for i in List.range (40 * nprogs) do
+    if done < nprogs then
+      let (p, r1) := if i == 0 then (fixed, r) else gprog r
+      r := r1
+      let s := p.render
+      if p.ok && knownOps p && p.insts.length ≥ 2 && s.length ≤ 160 && (expected p).isSome then
+        done := done + 1
+        for cut in List.range s.length do
+          k := k + 1
+          let line := s!"cut 4 {Views.hexOrDash (s.take cut)} {encProg p}"
+          match viewTwin k line (some (s.drop cut)) with
+          | some l => emit l
+          | none => pure ()
+
+def gen (seed n : Nat) (tier : String) (emit0 : String → IO Unit) : IO Unit := do
+  -- every case is emitted twice: as it is, and on a restricted view
+  let ctr ← IO.mkRef 0
+  let emitC (cont : Option Bytes) (line : String) : IO Unit := do
+    emit0 line
+    let c ← ctr.modifyGet fun c => (c, c + 1)
+    match viewTwin c line cont with
+    | some l => emit0 l
+    | none => pure ()
+  let emit := emitC none
+  -- a structured case; one in five is followed by a view whose window ends after an earlier instruction
+  -- (counter divisible by 5: the suffix rule of `viewTwin` then puts the remaining instructions behind the window)
+  let emitP (kind : String) (d : Nat) (p : Prog) : IO Unit := do
+    emit (caseLine kind d p)
+    let c ← ctr.get
+    if c % 5 == 0 then
+      match trimProg c p with
+      | some (p', rest) =>
+        ctr.set (c + 1)
+        match viewTwin c (caseLine kind d p') (some rest) with
+        | some l => emit0 l
+        | none => pure ()
+      | none => pure ()
+  cutWindows emit0 seed (if tier == "thorough" then 60 else 8)
   -- stream 4: exhaustive (node, operator) table, each pair followed by every probe and by nothing
   let allOps := catTable.map (·.1) ++ [b "foo"]
   for nd in allNodes do
@@ -369,9 +506,9 @@ def gen (seed n : Nat) (_tier : String) (emit : String → IO Unit) : IO Unit :=
   for _ in List.range n do
     let (p, r1) := gprog r
     let (d, r2) := r1.pick [1, 1, 2, 4, 8]
-    emit (caseLine "walk" d p)
+    emitP "walk" d p
     let (q, r3) := gdeviate p r2
-    emit (caseLine "dev" d q)
+    emitP "dev" d q
     -- raw: truncate or damage one byte of the rendered stream (no '+': spelled numbers never carry it)
     let s := q.render
     let (k, r4) := r3.nat 3
@@ -380,13 +517,17 @@ def gen (seed n : Nat) (_tier : String) (emit : String → IO Unit) : IO Unit :=
     r := r6
     let s' := if k == 0 then s.take pos else if k == 1 then s.take pos ++ [x] ++ s.drop (pos + 1)
               else s.take pos ++ [x] ++ s.drop pos
-    emit s!"raw {d} {hexOfBytes s'}"
+    -- (on a view: behind a truncated window lies the rest of the stream)
+    emitC (if k == 0 then some (s.drop pos) else none) s!"raw {d} {hexOfBytes s'}"
 
 /-- non-trivial: a structured case (syntax tree present) with at least two operator instances -/
-def nontrivial (line : String) : Bool :=
+def nontrivialPlain (line : String) : Bool :=
   match words line with
   | [_, _, _, enc] => ((enc.splitOn ",").filter (fun t => t.startsWith "o")).length ≥ 2
   | _ => false
+
+/-- a case on a view counts when the case does and the window lies inside a larger allocation -/
+def nontrivial (line : String) : Bool := Views.nontrivial nontrivialPlain line
 
 def driver : PropDriver := { gen, model, judge, nontrivial }
 end Driver.C12
